@@ -96,7 +96,8 @@ class Rewrite(ast.NodeTransformer):
         names = sorted({t.id for t in ast.walk(node) if isinstance(t, ast.Name) and t.id in local})
         enter = ast.Assign(targets=[ast.Name("__vf_st", ast.Store())],
                            value=ast.Call(func=ast.Name("__vf_while_enter__", ast.Load()),
-                                          args=[ast.Constant(key), ast.Call(func=ast.Name("locals", ast.Load()), args=[], keywords=[])],
+                                          args=[ast.Constant(key), ast.Call(func=ast.Name("locals", ast.Load()), args=[], keywords=[]),
+                                                ast.Constant(tuple(names))],
                                           keywords=[]))
         rebinding = [ast.If(test=ast.Compare(left=ast.Constant(v), ops=[ast.In()], comparators=[ast.Name("__vf_st", ast.Load())]),
                             body=[ast.Assign(targets=[ast.Name(v, ast.Store())],
@@ -132,7 +133,7 @@ class Rewrite(ast.NodeTransformer):
         loc = ast.Call(func=ast.Name("locals", ast.Load()), args=[], keywords=[])
         enter = ast.Assign(targets=[ast.Name("__vf_st", ast.Store())],
                            value=ast.Call(func=ast.Name("__vf_while_enter__", ast.Load()),
-                                          args=[ast.Constant(key), loc], keywords=[]))
+                                          args=[ast.Constant(key), loc, ast.Constant(tuple(assigned))], keywords=[]))
         rebinding = [ast.If(test=ast.Compare(left=ast.Constant(v), ops=[ast.In()], comparators=[ast.Name("__vf_st", ast.Load())]),
                             body=[ast.Assign(targets=[ast.Name(v, ast.Store())],
                                              value=ast.Subscript(value=ast.Name("__vf_st", ast.Load()), slice=ast.Constant(v), ctx=ast.Load()))],
@@ -802,11 +803,28 @@ def vf_loop_iter(key, it):
 WHILE_CUTS = {}
 
 
-def vf_while_enter(key, loc):
+def vf_while_enter(key, loc, rebindable=None):
     h = WHILE_CUTS.get(key)
     if h is None:
+        c = sym.Ctx.cur
+        if c is not None:
+            c.loop_steps[key] = 0          # the unfolding limit is per execution of the loop, not per path
         return None
+    # the locals the loop assigns (only these are re-bound from the returned state): lets a cut find its state variables by what
+    # they hold at the loop head instead of by name
+    try:
+        h.rebindable = tuple(rebindable or ())
+    except Exception:  # noqa: BLE001
+        pass
     return h.enter(loc)
+
+
+def state_variable(loc, names, pred, what):
+    """the unique re-bindable local whose value at the loop head satisfies pred (cut-point contracts name roles, not variables)"""
+    hits = [n for n in names if n in loc and pred(loc[n])]
+    if len(hits) != 1:
+        raise EngineUnsupported("cut-point contract: cannot identify %s among the loop's variables %r" % (what, list(names)))
+    return hits[0]
 
 
 LOOP_UNFOLD_LIMIT = 64
